@@ -143,6 +143,9 @@ def special_shapes():
         dict(name="Collide", fields=[dict(vis="private", name="o", typ="fp.Option[int]", kind="option", tag=""), dict(vis="private", name="k", typ="option.Kind", kind="userpkg", tag=""),
                                      dict(vis="private", name="m", typ="as.Mark", kind="userpkg", tag=""), dict(vis="private", name="ok", typ="fp.Option[option.Kind]", kind="option", tag="")],
              json=True, labelled=True, tparams=[]),
+        # no field is a constructor argument (all Option / pointer)
+        dict(name="ReqNone", anns=["Value", "RequiredArgsConstructor"], json=False, labelled=False, tparams=[],
+             fields=[dict(vis="private", name="o", typ="fp.Option[string]", kind="option", tag=""), dict(vis="private", name="p", typ="*int", kind="pointer", tag="")]),
     ] + [dict(name="Ann%d" % i, anns=anns, json=False, labelled=False, tparams=[],
               fields=[dict(vis="private", name="a", typ="int", kind="basic", tag=""), dict(vis="private", name="o", typ="fp.Option[string]", kind="option", tag=""),
                       dict(vis="public", name="P", typ="[]int", kind="slice", tag="")])
